@@ -539,13 +539,28 @@ package bpmn
 // executeSequenceFlow: an unconditional flow is taken without evaluating anything; the evaluation itself
 // (expression engines) is unknown code: opaque events, arbitrary result.
 //@ func (*flow).executeSequenceFlow
-//@   prop C01 C04
-//@   flag emits opaque
+//@   prop C01 C04 C05
+//@   flag emits opaque+calls
+//@   flag countresult
 //@   ensures [unconditional-is-taken] unconditional ==> result && err == nil && evlen == old(evlen)
 //@   ensures [error-means-not-taken] err != nil ==> !result
+//@   ensures [a-condition-is-evaluated-on-variables-read-by-this-very-call]
+//@             count(Call, code("expression|IEvaluator.EvaluateExpression")) > old(count(Call, code("expression|IEvaluator.EvaluateExpression"))) ==>
+//@             count(Call, code("data|IFlowDataLocator.CloneVariables")) > old(count(Call, code("data|IFlowDataLocator.CloneVariables")))
+//@   ensures [at-most-one-evaluation] count(Call, code("expression|IEvaluator.EvaluateExpression")) <= old(count(Call, code("expression|IEvaluator.EvaluateExpression"))) + 1
+//@   ensures [no-identifier-drawn] count(Call, code("id|IGenerator.New")) == old(count(Call, code("id|IGenerator.New")))
+//@   ensures [its-interface-calls-read-variables-or-evaluate] forall p int :: old(evlen) <= p && p < evlen && isCall(ev(p)) ==>
+//@             evch(ev(p)) == code("data|IFlowDataLocator.CloneVariables") || evch(ev(p)) == code("expression|IEvaluator.EvaluateExpression")
 //@   ensures f.current == old(f.current) && f.sequenceFlowId == old(f.sequenceFlowId) && f.terminate == old(f.terminate) &&
 //@           f.actionTransformer == old(f.actionTransformer) && f.retry == old(f.retry) && f.id == old(f.id) && f.tracer == old(f.tracer) &&
 //@           f.idGenerator == old(f.idGenerator) && f.flowNodeMapping == old(f.flowNodeMapping) && f.flowWaitGroup == old(f.flowWaitGroup) && f.locator == old(f.locator)
+//@   loop 1 range f.locator.CloneVariables()
+//@     invariant forall p int :: old(evlen) <= p && p < evlen ==> isOpaque(ev(p)) || isCall(ev(p))
+//@     invariant forall p int :: old(evlen) <= p && p < evlen && isCall(ev(p)) ==>
+//@             evch(ev(p)) == code("data|IFlowDataLocator.CloneVariables") || evch(ev(p)) == code("expression|IEvaluator.EvaluateExpression")
+//@     invariant count(Call, code("expression|IEvaluator.EvaluateExpression")) == old(count(Call, code("expression|IEvaluator.EvaluateExpression")))
+//@     invariant count(Call, code("data|IFlowDataLocator.CloneVariables")) == old(count(Call, code("data|IFlowDataLocator.CloneVariables"))) + 1
+//@     invariant count(Call, code("id|IGenerator.New")) == old(count(Call, code("id|IGenerator.New")))
 
 // handleSequenceFlow: the current token either moves along the flow (leave, visit, position and transformer
 // updated) or stays exactly where it was; it emits only traces.
@@ -556,7 +571,7 @@ package bpmn
 //@   ensures [moved-when-flowed] flowed ==> f.terminate == terminate && f.actionTransformer == actionTransformer
 //@   ensures [leave-then-visit] flowed ==> evlen >= old(evlen) + 2 && isTrace(ev(evlen - 1)) && is(evval(ev(evlen - 1)), VisitTrace) &&
 //@             exists p int :: old(evlen) <= p && p < evlen - 1 && isTrace(ev(p)) && is(evval(ev(p)), LeaveTrace)
-//@   ensures [only-traces-and-evaluation] forall p int :: old(evlen) <= p && p < evlen ==> (isTrace(ev(p)) && evch(ev(p)) == ref(f.tracer)) || isOpaque(ev(p))
+//@   ensures [only-traces-and-evaluation] forall p int :: old(evlen) <= p && p < evlen ==> (isTrace(ev(p)) && evch(ev(p)) == ref(f.tracer)) || isOpaque(ev(p)) || isCall(ev(p))
 //@   ensures [no-flow-trace] forall p int :: old(evlen) <= p && p < evlen && isTrace(ev(p)) ==> !is(evval(ev(p)), FlowTrace) && !is(evval(ev(p)), TerminationTrace)
 //@   ensures [counts] count(Trace, FlowTrace) == old(count(Trace, FlowTrace)) && count(Trace, TerminationTrace) == old(count(Trace, TerminationTrace)) &&
 //@             count(Spawn, code("(*flow).Start$1")) == old(count(Spawn, code("(*flow).Start$1"))) &&
@@ -574,7 +589,7 @@ package bpmn
 //@   ensures [flowing-fork-draws-one-id] flowed ==> handle != nil && tag(flowId) != 0 &&
 //@             isCall(ev(evlen - 1)) && evch(ev(evlen - 1)) == code("id|IGenerator.New") && evval(ev(evlen - 1)) == f.idGenerator &&
 //@             eva1(ev(evlen - 1)) == flowId &&
-//@             forall p int :: old(evlen) <= p && p < evlen - 1 ==> !isCall(ev(p)) || isOpaque(ev(p)) && evch(ev(p)) != code("id|IGenerator.New")
+//@             forall p int :: old(evlen) <= p && p < evlen - 1 ==> !(isCall(ev(p)) && evch(ev(p)) == code("id|IGenerator.New"))
 //@   ensures [non-flowing-fork-draws-none] !flowed ==> handle == nil &&
 //@             forall p int :: old(evlen) <= p && p < evlen ==> !(isCall(ev(p)) && evch(ev(p)) == code("id|IGenerator.New"))
 //@   ensures [nothing-started-yet] forall p int :: old(evlen) <= p && p < evlen ==> !isSpawn(ev(p)) && !isWgAdd(ev(p)) &&
@@ -660,6 +675,9 @@ package bpmn
 //@   loop 2 range a.sequenceFlows
 //@     invariant forall b int :: off(results) <= b && b < off(results) + len(results) ==> 0 <= at(results, b) && at(results, b) < i
 //@     invariant forall b int, c int :: off(results) <= b && b < c && c < off(results) + len(results) ==> at(results, b) < at(results, c)
+//@     invariant [one-evaluation-per-flow-so-far] ndirect(code("(*flow).executeSequenceFlow")) == atentry(2, ndirect(code("(*flow).executeSequenceFlow"))) + rk2
+//@     invariant [every-true-flow-is-reported] len(results) == ndirectTrue(code("(*flow).executeSequenceFlow")) - atentry(2, ndirectTrue(code("(*flow).executeSequenceFlow")))
+//@     exit ensures [every-flow-of-a-probe-is-evaluated] rk2 == len(a.sequenceFlows)
 //@     invariant tokFrame(f) && iterFrame(f) && noVisitYet(f) && count(Recv, ErrHandler) == athead(1, count(Recv, ErrHandler)) && f.retry == athead(1, f.retry)
 //@   loop 3 range res.dataObjects
 //@     invariant tokFrame(f) && iterFrame(f) && noVisitYet(f) && f.retry == athead(1, f.retry)
